@@ -60,6 +60,12 @@ def check(m, c, label, default=False):
         bad.append(f"{label}: {len(added)} hydrogens added, the formula gives {want}")
     if not np.isfinite(m.coords[n0:]).all():
         bad.append(f"{label}: new hydrogens have non-finite coordinates")
+    else:
+        want_len = c.element.cov_radius_1 + ml.Element.H.cov_radius_1
+        for hcoord in m.coords[n0:]:
+            if abs(np.linalg.norm(hcoord - m.get_atom_coord(c)) - want_len) > 1e-3:
+                bad.append(f"{label}: new X-H distance {np.linalg.norm(hcoord - m.get_atom_coord(c)):.3f}, sum of covalent radii {want_len:.3f}")
+                break
     nbrs = [x for x in m.connected_atoms(c) if x in m.atoms[:n0]]
     if nbrs and np.isfinite(m.coords[n0:]).all():
         cen = np.mean([m.get_atom_coord(x) for x in nbrs], axis=0) - m.get_atom_coord(c)
@@ -73,6 +79,16 @@ def check(m, c, label, default=False):
     m.add_implicit_hydrogens(c)
     if m.n_atoms != n1:
         bad.append(f"{label}: second call added {m.n_atoms - n1} more")
+
+
+def sweep():
+    for centre in ("C", "N", "O"):
+        for nb in (0, 1, 2, 3):
+            for z in (False, True):
+                for flip in (1, -1):
+                    m, c = build(centre, nb, along_z=z)
+                    m.coords = m.coords * flip          # mirror: both orientations of a pyramidal centre
+                    check(m, c, f"{centre}, {nb} neighbours{', first bond along z' if z else ''}{', mirrored' if flip < 0 else ''}")
 
 
 if w.get("op") == "mean_plane":
@@ -118,13 +134,9 @@ elif w.get("op") == "default-selection":
                 m, c = build(el.name, nb, btypes=[int(bt)] if bt is not None else None, neighbour="Fe")
                 check(m, c, f"{el.name} (group {g_}) with {nb} neighbours", default=True)
 else:
-    for centre in ("C", "N", "O"):
-        for nb in (0, 1, 2, 3):
-            for z in (False, True):
-                for flip in (1, -1):
-                    m, c = build(centre, nb, along_z=z)
-                    m.coords = m.coords * flip          # mirror: both orientations of a pyramidal centre
-                    check(m, c, f"{centre}, {nb} neighbours{', first bond along z' if z else ''}{', mirrored' if flip < 0 else ''}")
+    sweep()
+if w.get("op") == "count" and not bad:
+    sweep()          # one call after another in the same process: nothing a call leaves behind may change the next one
 if bad:
     if sys.argv[1] == "--search":
         json.dump({"witness": {"op": "search", "signature": "hydrogens"}, "violated": bad[:5]}, open(sys.argv[3], "w"), indent=1)
